@@ -17,10 +17,10 @@ theorem translated_split_estimation_tasks_eq {C : Type} (tasks : List (Task C)) 
   have h := split_fold tasks 0 ⟨[], [], [], []⟩
   unfold Translated.split_estimation_tasks_to_measure splitTasks
   simp only [List.map_nil] at h
-  have h1 := congrArg (fun r => r.2.1) h
-  have h2 := congrArg (fun r => r.1) h
-  have h3 := congrArg (fun r => r.2.2.2) h
-  have h4 := congrArg (fun r => r.2.2.1) h
+  have h1 := congrArg (fun r => r.2.2.2) h
+  have h2 := congrArg (fun r => r.2.1) h
+  have h3 := congrArg (fun r => r.2.2.1) h
+  have h4 := congrArg (fun r => r.1) h
   simp only at h1 h2 h3 h4
   rw [← h1, ← h2, ← h3, ← h4]
 
